@@ -5,13 +5,10 @@
 import Mathlib.LinearAlgebra.Matrix.NonsingularInverse
 import Mathlib.Data.ZMod.Basic
 import GraphiqModel.Model.GraphOps
+import GraphiqModel.Proofs.B2Z
 namespace Graphiq
 open Matrix
 
-def b2z (b : Bool) : ZMod 2 := if b then 1 else 0
-
-theorem b2z_xor (a b : Bool) : b2z (xor a b) = b2z a + b2z b := by cases a <;> cases b <;> decide
-theorem b2z_and (a b : Bool) : b2z (a && b) = b2z a * b2z b := by cases a <;> cases b <;> decide
 theorem b2z_inj (a b : Bool) (h : b2z a = b2z b) : a = b := by
   cases a <;> cases b <;> first | rfl | exact absurd h (by decide)
 
